@@ -310,6 +310,17 @@ def replay_run(ctx, prop, obj):
     rc = 0
     for f in obj.get("failures", []):
         c = f["case"]
+        if c.get("scenario") == "recreate-total":
+            sub = common.Ctx(prop, ctx.tier, ctx.seed)
+            try:
+                recreate_scenario(sub, prop, [(c["a"], c["b"], c["jobs"], c["dur"])])
+            finally:
+                sub.cleanup()
+            print("replay:", [m["what"][:300] for m in sub.monitor_failures] or "no failure on this tree")
+            if sub.monitor_failures:
+                rc = 1
+                print(f"VIOLATION property={prop} replay=(replayed)")
+            continue
         if c.get("engine") != "tokeng":
             continue
         with mp.Pool(1) as pool:
@@ -443,6 +454,119 @@ def real_runs(ctx, prop, rounds=2, timeout=75):
     return stats
 
 
+_RECREATE_SRC = '''import sys, os, logging, json, gc
+from pathlib import Path
+args = json.loads(sys.argv[1])
+sys.path.insert(0, args["pkg"])
+logging.basicConfig(level=logging.ERROR)
+from experimaestro import experiment
+from experimaestro.tokens import CounterToken
+from xvtokpkg.tasks import Hold
+with experiment(Path(args["ws"]), "tok", port=-1) as xp:
+    xp.setenv("PYTHONPATH", os.pathsep.join([args["pkg"]] + ([os.environ["PYTHONPATH"]] if os.environ.get("PYTHONPATH") else [])))
+    first = xp.token("slots", args["a"])       # the token is defined ...
+    token = xp.token("slots", args["b"])       # ... and asked again with another total
+    for i in range(args["jobs"]):
+        token(1, Hold(x=i, count=1, log=Path(args["log"]), dur=args["dur"])).submit()
+    xp.wait()
+info = Path(os.environ["XPM_WORKDIR"]) / "tokens" / "slots.counter" / "token.info"
+print(json.dumps({"same_object": first is token, "token_total": token.total, "token_info": int(info.read_text()),
+                  "token_objects": sum(1 for o in gc.get_objects() if isinstance(o, CounterToken))}), flush=True)
+'''
+
+
+def _recreate_attempt(root, k, a, b, jobs, dur, timeout):
+    import os
+    import signal
+    import subprocess
+    import sys
+    adir = root / f"a{k}"
+    adir.mkdir(parents=True, exist_ok=True)
+    args = {"pkg": str(root / "pkg"), "ws": str(adir / "ws"), "a": a, "b": b, "jobs": jobs, "dur": dur, "log": str(adir / "log.txt")}
+    env = dict(os.environ, XPM_WORKDIR=str(adir / "xpm"), PYTHONWARNINGS="ignore")
+    p = subprocess.Popen([sys.executable, str(root / "recreate_main.py"), json.dumps(args)], stdout=subprocess.PIPE,
+                         stderr=subprocess.PIPE, text=True, env=env, start_new_session=True)
+    try:
+        out, err = p.communicate(timeout=timeout)
+    except subprocess.TimeoutExpired:
+        try:
+            os.killpg(p.pid, signal.SIGKILL)
+        except Exception:
+            p.kill()
+        out, err = p.communicate()
+        return {"hung": True, "stderr": err[-300:]}
+    obs = None
+    for line in reversed(out.strip().splitlines()):
+        try:
+            obs = json.loads(line)
+            break
+        except json.JSONDecodeError:
+            continue
+    if obs is None:
+        return {"failed": True, "rc": p.returncode, "stderr": err[-300:]}
+    evs = []
+    logf = adir / "log.txt"
+    if logf.exists():
+        for line in logf.read_text().splitlines():
+            kind, x, c, t = line.split()
+            evs.append((float(t), 0 if kind == "E" else 1, int(x), int(c)))
+    evs.sort()
+    t0 = evs[0][0] if evs else 0.0
+    held, who, worst, worst_who, worst_t = 0, set(), 0, [], 0.0
+    for t, kind, x, c in evs:
+        if kind == 1:
+            held += c
+            who.add(x)
+            if held > worst:
+                worst, worst_who, worst_t = held, sorted(who), round(t - t0, 2)
+        else:
+            held -= c
+            who.discard(x)
+    obs.update(max_held=worst, together=worst_who, at=worst_t, started=sum(1 for e in evs if e[1] == 1),
+               intervals=[[x, round(t - t0, 2), "start" if kind else "end"] for t, kind, x, c in evs])
+    return obs
+
+
+def recreate_scenario(ctx, prop, variants=None, timeout=60):
+    """one real process, real watchdog observer, real task processes: `xp.token("slots", a)` then `xp.token("slots", b)`,
+    jobs asking 1 each; the task-side interval log must respect the total the surviving token reports.  With one token
+    object per process (same object returned) one attempt is conclusive; if a second object was built, up to 3 fresh
+    processes are tried (the outcome then depends on thread timing) and only a real overrun is reported."""
+    from pathlib import Path
+    variants = variants or [(1, 2, 5, 0.5)]
+    root = Path(ctx.tmpdir()) / f"recreate-{prop}"
+    pkg = root / "pkg" / "xvtokpkg"
+    pkg.mkdir(parents=True, exist_ok=True)
+    (pkg / "__init__.py").write_text("")
+    (pkg / "tasks.py").write_text(_TASKS_SRC)
+    (root / "recreate_main.py").write_text(_RECREATE_SRC)
+    res = []
+    for vi, (a, b, jobs, dur) in enumerate(variants):
+        attempts = []
+        for k in range(3):
+            o = _recreate_attempt(root, f"{vi}-{k}", a, b, jobs, dur, timeout)
+            attempts.append({kk: vv for kk, vv in o.items() if kk != "intervals"})
+            ctx.evaluations += 1
+            if o.get("hung") or o.get("failed"):
+                ctx.notes.append(f"recreate scenario {a}->{b}: attempt {k} did not complete: {o}")
+                continue
+            total = o["token_info"]
+            if o["max_held"] > total:
+                ctx.monitor_fail("recreate-with-other-total:capacity-exceeded",
+                                 f"one process, xp.token('slots', {a}) then xp.token('slots', {b}), {jobs} jobs asking 1 each: at t={o['at']}s jobs "
+                                 f"{o['together']} execute together and hold {o['max_held']} > total {total} (token.info; the returned token reports "
+                                 f"{o['token_total']}); the second call returned {'the same' if o['same_object'] else 'a different'} token object and the "
+                                 f"process has {o['token_objects']} CounterToken objects on the directory; task-side intervals {o['intervals']}",
+                                 {"scenario": "recreate-total", "a": a, "b": b, "jobs": jobs, "dur": dur, "observed": o})
+                break
+            if o["same_object"] and o["token_objects"] == 1:
+                break  # one token object per process: nothing timing-dependent to retry
+        res.append({"ask": [a, b], "jobs": jobs, "attempts": attempts})
+        ctx.count("ft_recreate_same_object", attempts[-1].get("same_object"))
+    ctx.extra_cov["file_token_recreate_scenarios"] = res
+    return res
+
+
 # ------------------------------------------------------------------------------------------------ module API
 def prove(ctx):
     """stand-alone use; when chained, add MODULES to the caller's list instead"""
@@ -457,6 +581,7 @@ def prove(ctx):
 
 def correspond(ctx):
     run(ctx, PROP, 320, 6000)
+    recreate_scenario(ctx, PROP, [(1, 2, 5, 0.5)] if ctx.quick() else [(1, 2, 5, 0.6), (2, 3, 5, 0.6), (1, 3, 5, 0.6)])
     if not ctx.quick():
         real_runs(ctx, PROP)
 
